@@ -176,7 +176,7 @@ class SwallowRegistry:
         if ex is not None and not isinstance(ex.node, ast.Lambda):
             args = ex.node.args
             pos = [a.arg for a in args.posonlyargs + args.args]
-            if len(pos) >= 3 and all(ExitPaths(ex.node, pos[2], k).all_true() for k in ("exc", "grp")):
+            if len(pos) >= 3 and all(ExitPaths(ex.node, pos[2], k, resolver=ci.find_method, self_name=pos[0]).all_true() for k in ("exc", "grp")):
                 res = frozenset(EXC_TOKENS)
         self._memo[key] = res
         return res
@@ -188,9 +188,38 @@ class ExitPaths:
     GROUPS = {"BaseExceptionGroup", "ExceptionGroup"}
     ROOTS = {"Exception", "BaseException"}
 
-    def __init__(self, fn_node: ast.AST, var: str, kind: str) -> None:
+    def __init__(self, fn_node: ast.AST, var: str, kind: str, resolver=None, self_name: str | None = None, depth: int = 0) -> None:
         self.fn_node, self.var, self.kind = fn_node, var, kind
         self.budget = 4000
+        self.resolver, self.self_name, self.depth = resolver, self_name, depth
+        self.ret_kinds: list[str] = []  # abstract kind of every value returned (read by the caller when a private helper is followed)
+
+    def helper_result(self, call: ast.Call, env: dict):
+        """`self.__helper(x)` with x of a known kind, the helper a plain (non-async, non-generator) method of the same class: the kinds it
+        can return and whether one of its paths raises; None when it is not followed"""
+        if self.resolver is None or self.depth >= 2 or not (isinstance(call.func, ast.Attribute) and isinstance(call.func.value, ast.Name)
+                                                            and call.func.value.id == self.self_name) or call.keywords:
+            return None
+        g = self.resolver(call.func.attr)
+        node = getattr(g, "node", None)
+        if not isinstance(node, ast.FunctionDef) or any(isinstance(x, (ast.Yield, ast.YieldFrom)) for x in ast.walk(node)):
+            return None
+        params = [a.arg for a in node.args.posonlyargs + node.args.args]
+        if len(params) != len(call.args) + 1 or not any(isinstance(a, ast.Name) and env.get(a.id, "?") != "?" for a in call.args):
+            return None
+        genv = {params[i + 1]: (env.get(a.id, "?") if isinstance(a, ast.Name) else ("none" if isinstance(a, ast.Constant) and a.value is None else "?")) for i, a in enumerate(call.args)}
+        sub = ExitPaths(node, params[1] if len(params) > 1 else "", "", resolver=self.resolver, self_name=params[0], depth=self.depth + 1)
+        raises = False
+        for out, _ in sub.block(node.body, genv):
+            if out == "raise":
+                raises = True
+            elif out == "next":
+                sub.ret_kinds.append("none")
+            elif out in ("break", "continue"):
+                return None
+        if sub.budget < 0:
+            return None
+        return set(sub.ret_kinds), raises
 
     def all_true(self) -> bool:
         outs = list(self.block(self.fn_node.body, {self.var: self.kind}))
@@ -276,6 +305,7 @@ class ExitPaths:
     def stmt(self, st, env):
         if isinstance(st, ast.Return):
             v = st.value
+            self.ret_kinds.append("none" if v is None or (isinstance(v, ast.Constant) and v.value is None) else (env.get(v.id, "?") if isinstance(v, ast.Name) else "?"))
             yield ("true" if isinstance(v, ast.Constant) and v.value is True else "other"), env
         elif isinstance(st, ast.Raise):
             yield "raise", env
@@ -336,6 +366,14 @@ class ExitPaths:
                     and env.get(val.func.value.id) == "grp":
                 split_of = val.func.value.id
             envs = [dict(env)]
+            followed = self.helper_result(val, env) if isinstance(val, ast.Call) and len(targets) == 1 and isinstance(targets[0], ast.Name) else None
+            if followed is not None:
+                kinds, raises = followed
+                if raises:
+                    yield "raise", env
+                for k in sorted(kinds):
+                    yield "next", {**env, targets[0].id: k}
+                return
             for t in targets:
                 if isinstance(t, ast.Tuple) and split_of and len(t.elts) == 2 and all(isinstance(x, ast.Name) for x in t.elts):
                     # (matching sub-group | None, remaining sub-group | None); both are groups of Exceptions only
